@@ -1,7 +1,8 @@
 #!/bin/bash
-# usage: try_mutant_wt.sh <ID> <n> <property id>...
+# usage: try_mutant_wt.sh <worktree id under /tmp/wt> <n> <property id>... [-- extra verif args]
 # Development aid: applies /tmp/wt/<ID>/out/<n>/patch.diff inside the scratch worktree /tmp/wt/<ID> (which must be at
-# /repo's HEAD), runs the quick checks against that worktree (VERIF_REPO), and reverts. /repo is not touched.
+# /repo's HEAD), runs the quick checks against that worktree (VERIF_REPO, evidence kept out of /verif/evidence), and
+# reverts. /repo is not touched.
 id=$1; n=$2; shift 2
 wt=/tmp/wt/$id
 cd "$wt" || exit 9
@@ -9,7 +10,7 @@ git checkout -q -- .
 if ! git apply --check "out/$n/patch.diff" 2>/dev/null; then echo "PATCH-DOES-NOT-APPLY $id/$n"; exit 9; fi
 git apply "out/$n/patch.diff"
 for p in "$@"; do
-  out=$(cd /verif && VERIF_REPO=$wt timeout 2400 ./bin/verif check "$p" --tier quick 2>&1); rc=$?
+  out=$(cd /verif && VERIF_REPO=$wt VERIF_EVIDENCE_DIR=/tmp/wt/evidence-$id timeout 2400 ./bin/verif check "$p" --tier quick $VERIF_EXTRA 2>&1); rc=$?
   echo "== $id/$n :: $p rc=$rc"
   echo "$out" | grep -E "^VIOLATION|^KNOWN|^INCONCLUSIVE|^OK|^SPURIOUS|^UNCONFIRMED|^  harness|^  deadlock" | cut -c1-300 | head -8
 done
